@@ -63,6 +63,17 @@ def expression_pool(model, tier):
         pool += [("Exponential", x, 1e20), ("Exponential", x, 1e10)]
     if "Add" in names:
         pool += [("Add", [x, ("Constant", -1)]), ("Add", [x, ("Constant", -2)])]
+    # a node whose only / first / last child is a node of the SAME class (text handling keyed on the
+    # parent's own name or opener; equality or hashing that flattens)
+    for k in ("Add", "Multiply"):
+        if k in names:
+            pool += [(k, [(k, [x, y])]), (k, [(k, [x])]), (k, [(k, [])]), (k, [(k, [x, y]), x]), (k, [x, (k, [x, y])])]
+    for k in ("Negation", "Reciprocal", "Sine"):
+        if k in names:
+            pool += [(k, (k, x))]
+    for k in ("Minus", "Divide", "Power"):
+        if k in names:
+            pool += [(k, (k, x, y), y), (k, x, (k, x, y))]
     if tier != "quick":
         pool += [("NthPower", ("NthRoot", x, k), k + 1) for k in range(1, 6)]
         pool += [("Exponential", ("Logarithm", x, b), b) for b in (2, 0.25, 10.0)]
